@@ -33,6 +33,7 @@ func NewMailboxTracker(numMessages uint32) *MailboxTracker {
 func (t *MailboxTracker) NewSession() *SessionTracker {
 	st := &SessionTracker{mailbox: t}
 	t.mutex.Lock()
+	st.numMessages = t.numMessages
 	t.sessions[st] = struct{}{}
 	t.mutex.Unlock()
 	return st
@@ -119,9 +120,19 @@ type trackerUpdateFetch struct {
 type SessionTracker struct {
 	mailbox *MailboxTracker
 
-	mutex   sync.Mutex
-	queue   []trackerUpdate
-	updates chan<- struct{}
+	mutex       sync.Mutex
+	queue       []trackerUpdate
+	updates     chan<- struct{}
+	numMessages uint32 // number of messages the client has been told about
+}
+
+// NumMessages returns the number of messages in the mailbox from the client
+// point-of-view, i.e. the largest message sequence number in use in this
+// session ("*" in a sequence set).
+func (t *SessionTracker) NumMessages() uint32 {
+	t.mutex.Lock()
+	defer t.mutex.Unlock()
+	return t.numMessages
 }
 
 // Close unregisters the session.
@@ -169,6 +180,14 @@ func (t *SessionTracker) Poll(w *UpdateWriter, allowExpunge bool) error {
 			t.queue = t.queue[stopIndex:]
 		} else {
 			t.queue = nil
+		}
+	}
+	for _, update := range updates {
+		switch {
+		case update.expunge != 0:
+			t.numMessages--
+		case update.numMessages != 0:
+			t.numMessages = update.numMessages
 		}
 	}
 	t.mutex.Unlock()
